@@ -86,6 +86,92 @@ pub proof fn lemma_digit_run(s: Seq<u8>, k: int)
     }
 }
 
+/// length of the maximal run of bytes satisfying `p` at the start of s (generic version of digit_run)
+pub open spec fn run_len(s: Seq<u8>, p: spec_fn(u8) -> bool) -> int
+    decreases s.len()
+{
+    if s.len() > 0 && p(s[0]) { 1 + run_len(s.subrange(1, s.len() as int), p) } else { 0 }
+}
+pub proof fn lemma_run_len(s: Seq<u8>, p: spec_fn(u8) -> bool, k: int)
+    requires
+        0 <= k <= s.len(),
+        forall|i: int| 0 <= i < k ==> p(#[trigger] s[i]),
+        k < s.len() ==> !p(s[k]),
+    ensures run_len(s, p) == k
+    decreases s.len()
+{
+    if k > 0 {
+        let t = s.subrange(1, s.len() as int);
+        assert forall|i: int| 0 <= i < k - 1 implies p(#[trigger] t[i]) by { assert(t[i] == s[i + 1]); }
+        if k - 1 < t.len() { assert(t[k - 1] == s[k]); }
+        lemma_run_len(t, p, k - 1);
+    }
+}
+
+// named byte predicates (one term per predicate, so that contracts and hints talk about the same function)
+pub open spec fn p_space() -> spec_fn(u8) -> bool { |c: u8| space_byte(c) }
+pub open spec fn p_oct() -> spec_fn(u8) -> bool { |c: u8| oct_digit_byte(c) }
+pub open spec fn p_hex() -> spec_fn(u8) -> bool { |c: u8| hex_digit_byte(c) }
+pub open spec fn p_not_ws() -> spec_fn(u8) -> bool { |c: u8| !whitespace_byte(c) }
+
+/// what split_at_cond(input, !p) returns is the maximal run of p-bytes and the rest
+pub proof fn lemma_split_run(input: Seq<u8>, a: Seq<u8>, b: Seq<u8>, p: spec_fn(u8) -> bool)
+    requires
+        a + b == input,
+        forall|i: int| 0 <= i < a.len() ==> p(#[trigger] a[i]),
+        b.len() > 0 ==> !p(b[0]),
+    ensures
+        run_len(input, p) == a.len(),
+        a == input.subrange(0, a.len() as int),
+        b == input.subrange(a.len() as int, input.len() as int),
+        is_suffix_of(b, input),
+{
+    let k = a.len() as int;
+    assert(input.subrange(0, k) =~= a);
+    assert(input.subrange(k, input.len() as int) =~= b);
+    assert forall|i: int| 0 <= i < k implies p(#[trigger] input[i]) by { assert(input[i] == a[i]); }
+    if k < input.len() { assert(input[k] == b[0]); }
+    lemma_run_len(input, p, k);
+}
+
+/// A file mode as in "old mode 100644" (GNU patch `fetchmode`): optional blanks/TABs, then EXACTLY six octal digits read
+/// as an octal number; no digit at all is "no match", any other number of digits a bad mode.  `rest` = after the digits.
+pub open spec fn spec_mode(input: Seq<u8>) -> Option<(Seq<u8>, u32)> {
+    let b = run_len(input, p_space());
+    let t = input.subrange(b, input.len() as int);
+    let k = run_len(t, p_oct());
+    if k != 6 { None } else { Some((t.subrange(6, t.len() as int), sh_oct_value(t.subrange(0, 6)) as u32)) }
+}
+/// six octal digits are at most 0o777777 < 2^32
+pub proof fn lemma_oct6_fits(s: Seq<u8>)
+    requires s.len() == 6, sh_all_oct_digits(s)
+    ensures sh_oct_value(s) <= 0o777777
+{
+    let s5 = s.drop_last(); let s4 = s5.drop_last(); let s3 = s4.drop_last(); let s2 = s3.drop_last(); let s1 = s2.drop_last();
+    let s0 = s1.drop_last();
+    assert(s0.len() == 0 && s1.len() == 1 && s2.len() == 2 && s3.len() == 3 && s4.len() == 4 && s5.len() == 5);
+    assert(48 <= s[0] <= 55 && 48 <= s[1] <= 55 && 48 <= s[2] <= 55 && 48 <= s[3] <= 55 && 48 <= s[4] <= 55 && 48 <= s[5] <= 55);
+    assert(s1.last() == s[0] && s2.last() == s[1] && s3.last() == s[2] && s4.last() == s[3] && s5.last() == s[4] && s.last() == s[5]);
+    assert(sh_oct_value(s0) == 0);
+    assert(sh_oct_value(s1) == sh_oct_value(s0) * 8 + (s[0] - 48) as nat);
+    assert(sh_oct_value(s1) <= 7);
+    assert(sh_oct_value(s2) == sh_oct_value(s1) * 8 + (s[1] - 48) as nat);
+    assert(sh_oct_value(s2) <= 63);
+    assert(sh_oct_value(s3) == sh_oct_value(s2) * 8 + (s[2] - 48) as nat);
+    assert(sh_oct_value(s3) <= 511);
+    assert(sh_oct_value(s4) == sh_oct_value(s3) * 8 + (s[3] - 48) as nat);
+    assert(sh_oct_value(s4) <= 4095);
+    assert(sh_oct_value(s5) == sh_oct_value(s4) * 8 + (s[4] - 48) as nat);
+    assert(sh_oct_value(s5) <= 32767);
+    assert(sh_oct_value(s) == sh_oct_value(s5) * 8 + (s[5] - 48) as nat);
+}
+
+/// a token: the maximal non-empty run of bytes satisfying p; `None` if the input does not start with such a byte
+pub open spec fn spec_token(input: Seq<u8>, p: spec_fn(u8) -> bool) -> Option<(Seq<u8>, Seq<u8>)> {
+    let k = run_len(input, p);
+    if k == 0 { None } else { Some((input.subrange(k, input.len() as int), input.subrange(0, k))) }
+}
+
 /// A number in a hunk header (unified format: decimal, no sign): the maximal run of digits at the start of the input
 /// read as a decimal number; an error if there is no digit or the value does not fit a machine word; `rest` is what
 /// follows the digits.  Written from the format, NOT from the code.
